@@ -97,6 +97,21 @@ class Harness:
         items = [self.int(f"{name}[{i}]", lo, hi) for i in range(n)]
         return mkbytes(items)
 
+    def f32(self, name):
+        """A finite binary32 value: symbolic = an opaque bit pattern (4 byte leaves, exponent != 255); native = the
+        Python float with that pattern (an infinite / NaN pattern drawn at random is mapped to a finite one)."""
+        bs = [self.int(f"{name}.b{i}", 0, 255) for i in range(4)]
+        if self.mode == "symbolic":
+            from .floats import SymF32
+
+            self.pctx.assume(sym_or((bs[3] % 128) != 127, bs[2] < 128))
+            return SymF32(bs)
+        import struct as _st
+
+        if bs[3] % 128 == 127 and bs[2] >= 128:
+            bs[3] -= 64
+        return _st.unpack("<f", bytes(bs))[0]
+
     def choice(self, name, seq):
         """Complete case split over concrete alternatives."""
         seq = list(seq)
